@@ -33,10 +33,11 @@ type SecureConn struct {
 }
 
 type SecureAead struct {
-	conn   net.Conn
-	secret []byte
-	aead   cipher.AEAD
-	nonce  []byte
+	conn    net.Conn
+	secret  []byte
+	aead    cipher.AEAD
+	nonce   []byte
+	pending []byte
 }
 
 const (
@@ -117,6 +118,11 @@ func (sa *SecureAead) increaseNonce() {
 	}
 }
 func (sa *SecureAead) Read(b []byte) (n int, err error) {
+	if len(sa.pending) > 0 {
+		n = copy(b, sa.pending)
+		sa.pending = sa.pending[n:]
+		return
+	}
 	frame := make([]byte, secureConnFrameSize)
 	_, err = io.ReadFull(sa.conn, frame[:secureConnHeaderSize])
 	if err != nil {
@@ -135,7 +141,12 @@ func (sa *SecureAead) Read(b []byte) (n int, err error) {
 	}
 	sa.increaseNonce()
 
-	copy(b, frame[:n])
+	size := n
+	n = copy(b, frame[:size])
+	if n < size {
+		// keep what does not fit for the following reads
+		sa.pending = frame[n:size]
+	}
 	return
 }
 
